@@ -102,21 +102,30 @@ class ThreadsafeProxy:
                 # Disconnected
                 LOGGER.warning("Attempted to use a closed event loop")
                 return
-            if asyncio.iscoroutinefunction(func):
-                future = asyncio.run_coroutine_threadsafe(call(), loop)
-                return asyncio.wrap_future(future, loop=curr_loop)
-            else:
+            try:
+                if asyncio.iscoroutinefunction(func):
+                    future = asyncio.run_coroutine_threadsafe(call(), loop)
+                    return asyncio.wrap_future(future, loop=curr_loop)
+                else:
 
-                def check_result_wrapper():
-                    result = call()
-                    if result is not None:
-                        raise TypeError(
-                            (
-                                "ThreadsafeProxy can only wrap functions with no return"
-                                "value \nUse an async method to return values: {}.{}"
-                            ).format(self._obj.__class__.__name__, name)
-                        )
+                    def check_result_wrapper():
+                        result = call()
+                        if result is not None:
+                            raise TypeError(
+                                (
+                                    "ThreadsafeProxy can only wrap functions with no return"
+                                    "value \nUse an async method to return values: {}.{}"
+                                ).format(self._obj.__class__.__name__, name)
+                            )
 
-                loop.call_soon_threadsafe(check_result_wrapper)
+                    loop.call_soon_threadsafe(check_result_wrapper)
+            except RuntimeError:
+                # The loop can be closed by its own thread between the check above and
+                # the call being scheduled
+                if not loop.is_closed():
+                    raise
+
+                LOGGER.warning("Attempted to use a closed event loop")
+                return
 
         return func_wrapper
